@@ -4,7 +4,7 @@ import itertools
 
 import boot  # noqa: F401
 from core import corr, oracle
-from lib import stanzas
+from lib import iqkinds, stanzas
 from lib.probes import Probe
 
 PID = "C06"
@@ -21,6 +21,7 @@ RULE = ("stream 'recv': stanza descriptors — every supported kind (text / exte
         "entity classes) x 16 flag sets: number of stanzas leaving the group vs model, and the stanza must equal entity.toProtocolTreeNode(). "
         "distinct = distinct (descriptor, flags, encryption).")
 RULE += (" An element the library does not know before / after the stanza's own children (named-children stanzas); ib stanzas with one supported child must give exactly one entity.")
+RULE += (" stream 'sendreply': every request kind of the regenerated request table sent down and answered (result / error) in all 16 module selections: exactly one entity, under the request's id, at the application.")
 ASSUMPTIONS = ["replies to registered requests are C08's subject; decryption of enc messages is C03's", "entity parsing of the injected fixtures is C09's subject"]
 
 FLAGSETS = ["".join(b) for b in itertools.product("01", repeat=4)]
@@ -180,6 +181,10 @@ def send_kinds():
             d = {"tag": "iq", "cls": "groupsRequest", "xmlns": "wg2", "iqType": "set"}
         elif n == "status-set":
             d = {"tag": "iq", "cls": "setStatus", "xmlns": "status", "iqType": "set"}
+        elif n == "statuses-get":
+            d = {"tag": "iq", "cls": "getStatuses", "xmlns": "status", "iqType": "get"}
+        elif n == "privacy-set":
+            d = {"tag": "iq", "xmlns": "privacy", "iqType": "set"}
         else:
             d = {"tag": "iq", "xmlns": xm[n], "iqType": {"ping": "get", "lastseen": "get", "picture-get": "get", "picture-set": "set",
                                                          "privacy-get": "get", "contact-sync": "get", "media-upload": "set"}[n]}
@@ -202,6 +207,12 @@ def cases(chk):
     for i, (d, _f) in enumerate(send_kinds()):
         for f in FLAGSETS:
             yield "send", {"k": i, "flags": f}
+    # a request of every kind in the request table, then the server's answer to it (result / error): the answer is one entity at the application,
+    # whichever protocol layer registered the request on its way down
+    for i, k in enumerate(iqkinds.kinds()):
+        for f in FLAGSETS:
+            for ok in (1, 0):
+                yield "sendreply", {"k": i, "flags": f, "ok": ok}
     # an element the library does not know before / after the stanza's own children: routing does not change
     # (for the stanzas whose documented shape has named children; a chat state IS its only child)
     for d in SUPPORTED:
@@ -286,6 +297,31 @@ def run_case(chk, stream, case):
         if raised is None and n != expect:
             fails.append(oracle("C06:outgoing-count:%s" % desc_line(d).replace(" ", ","), "entity %s with modules %s: %d stanza(s) left the protocol layers, expected %d"
                                 % (type(ent).__name__, case["flags"], n, expect)))
+        return fails
+    if stream == "sendreply":
+        kind = iqkinds.kinds()[case["k"]]
+        stack, bottom, top = get_stack(chk, case["flags"], 0)
+        del bottom.sent[:], top.received[:]
+        ent = kind["req"]()
+        top.toLower(ent)
+        chk.hit("sendreply:%s:%s" % (kind["name"], "result" if case["ok"] else "error"))
+        if len(bottom.sent) != 1:
+            return fails        # the module that sends this kind is left out (the 'send' stream decides whether that is right)
+        node = iqkinds.result_node(kind, ent.getId()) if case["ok"] else iqkinds.error_node(ent.getId())
+        del top.received[:]
+        import contextlib
+        import io
+        with contextlib.redirect_stdout(io.StringIO()):
+            bottom.toUpper(node)
+        got = list(top.received)
+        what = "the %s answer to a %s request (modules %s)" % ("result" if case["ok"] else "error", kind["name"], case["flags"])
+        if any(e is None for e in got):
+            fails.append(oracle("C06:none-delivered:answer:%s" % kind["name"], "%s: None instead of an entity reaches the application" % what))
+        elif len(got) != 1:
+            fails.append(oracle("C06:answer-not-exactly-once:%s:%s" % (kind["name"], "result" if case["ok"] else "error"),
+                                "%s produced %d entities at the application: %s" % (what, len(got), [type(e).__name__ for e in got])))
+        elif got[0].getId() != ent.getId():
+            fails.append(oracle("C06:answer-altered:%s" % kind["name"], "%s reached the application under id %r, the request's id is %r" % (what, got[0].getId(), ent.getId())))
         return fails
     chk.seq = getattr(chk, "seq", 0) + 1
     first_ups = None
